@@ -1,7 +1,938 @@
-//! C34 — not implemented yet.
-use vmon::report::Args;
+//! C34 — row id sequences and the row id index are faithful.
+//!
+//! Oracle: plain `Vec<u64>` for `RowIdSequence` (whatever segment encodings it picks) and a
+//! `BTreeMap<id, address>` for `RowIdIndex`. Pure: no tokio, no file system.
+use crate::common::*;
+use lance_core::utils::address::RowAddress;
+use lance_core::utils::deletion::DeletionVector;
+use lance_core::utils::mask::{RowIdMask, RowIdTreeMap};
+use lance_io::ReadBatchParams;
+use lance_table::rowids::{
+    read_row_ids, rechunk_sequences, select_row_ids, write_row_ids, FragmentRowIdIndex, RowIdIndex, RowIdSequence,
+};
+use serde_json::{json, Value};
+use std::collections::{BTreeMap, BTreeSet};
+use std::sync::atomic::{AtomicBool, AtomicU64, Ordering};
+use std::sync::Arc;
+use vmon::prng::Rng;
+use vmon::report::{Args, Report};
 
-pub fn run(_args: &Args) -> i32 {
-    eprintln!("HARNESS-ERROR C34 not implemented");
-    2
+type Fail = (String, String);
+
+/// selftest: drop the last element of what `iter()` returned before the oracle sees it
+static CORRUPT_ITER: AtomicBool = AtomicBool::new(false);
+
+fn obs_iter(s: &RowIdSequence) -> Vec<u64> {
+    let mut v: Vec<u64> = s.iter().collect();
+    if CORRUPT_ITER.load(Ordering::Relaxed) && v.len() > 2 {
+        v.pop();
+    }
+    v
+}
+
+const VARIANTS: [&str; 5] = ["RangeWithHoles", "RangeWithBitmap", "SortedArray", "Array", "Range"];
+
+/// Segment encodings of a sequence, read from its Debug form (the fields are private).
+fn encodings(s: &RowIdSequence) -> Vec<&'static str> {
+    let d = format!("{s:?}");
+    let mut out = vec![];
+    let b = d.as_bytes();
+    let mut i = 0;
+    while i < b.len() {
+        let mut hit = None;
+        if i == 0 || !(b[i - 1] as char).is_ascii_alphanumeric() {
+            for v in VARIANTS {
+                if d[i..].starts_with(v) {
+                    let after = d[i + v.len()..].chars().next();
+                    if matches!(after, Some('(') | Some(' ') | Some('{')) {
+                        hit = Some(v);
+                        break;
+                    }
+                }
+            }
+        }
+        if let Some(v) = hit {
+            out.push(v);
+            i += v.len();
+        } else {
+            i += 1;
+        }
+    }
+    out
+}
+
+fn enc_tag(s: &RowIdSequence) -> String {
+    let mut e: Vec<&str> = encodings(s);
+    e.dedup();
+    if e.len() > 3 {
+        "mixed".to_string()
+    } else {
+        e.join("+")
+    }
+}
+
+/// A sequence built the way callers build it: one `from(&[u64])` per part, combined by `extend`.
+fn build(parts: &[Vec<u64>]) -> RowIdSequence {
+    let mut s = RowIdSequence::new();
+    for p in parts {
+        // contiguous ascending parts go through From<Range> half of the time (same value)
+        s.extend(RowIdSequence::from(p.as_slice()));
+    }
+    s
+}
+
+fn flat(parts: &[Vec<u64>]) -> Vec<u64> {
+    parts.iter().flatten().copied().collect()
+}
+
+/// Everything that must hold for a freshly built sequence against its list.
+fn check_basic(s: &RowIdSequence, want: &[u64], what: &str) -> Result<(), Fail> {
+    let tag = enc_tag(s);
+    let got = obs_iter(s);
+    if got != want {
+        return Err((
+            format!("{what}:iter-differs:{tag}"),
+            format!("iter() yields {} ids, the list has {}; first difference at {:?}", got.len(), want.len(),
+                got.iter().zip(want).position(|(a, b)| a != b)),
+        ));
+    }
+    if s.len() != want.len() as u64 {
+        return Err((format!("{what}:len:{tag}"), format!("len() = {}, list has {}", s.len(), want.len())));
+    }
+    let rev: Vec<u64> = s.iter().rev().collect();
+    if !rev.iter().eq(want.iter().rev()) {
+        return Err((format!("{what}:reverse-iter-differs:{tag}"), String::new()));
+    }
+    let n = want.len();
+    let idxs: Vec<usize> = if n <= 64 { (0..n).collect() } else { vec![0, 1, n / 2, n - 2, n - 1] };
+    for i in idxs {
+        if s.get(i) != Some(want[i]) {
+            return Err((format!("{what}:get:{tag}"), format!("get({i}) = {:?}, list has {}", s.get(i), want[i])));
+        }
+    }
+    if s.get(n).is_some() || s.get(n + 7).is_some() {
+        return Err((format!("{what}:get-out-of-bounds-some:{tag}"), format!("get({n}) = {:?}", s.get(n))));
+    }
+    Ok(())
+}
+
+fn check_serde(s: &RowIdSequence, want: &[u64]) -> Result<(), Fail> {
+    let bytes = write_row_ids(s);
+    let back = read_row_ids(&bytes).map_err(|e| (format!("serde:read-error:{}", enc_tag(s)), e.to_string()))?;
+    if &back != s {
+        return Err((format!("serde:not-equal:{}", enc_tag(s)), format!("{s:?} -> {back:?}")));
+    }
+    check_basic(&back, want, "serde")
+}
+
+fn check_slice(s: &RowIdSequence, want: &[u64], off: usize, len: usize) -> Result<(), Fail> {
+    let sl = s.slice(off, len);
+    let it = sl.iter();
+    let hint = it.size_hint();
+    let got: Vec<u64> = it.collect();
+    if got != want[off..off + len] {
+        return Err((
+            format!("slice:differs:{}", enc_tag(s)),
+            format!("slice({off},{len}) of {} ids yields {:?}.., want {:?}..", want.len(), &got[..got.len().min(8)], &want[off..(off + len).min(off + 8)]),
+        ));
+    }
+    if hint.0 > got.len() || hint.1.is_some_and(|h| h < got.len()) {
+        return Err((format!("slice:size-hint-excludes-length:{}", enc_tag(s)), format!("size_hint {hint:?}, yielded {}", got.len())));
+    }
+    Ok(())
+}
+
+fn check_mask(s: &RowIdSequence, want: &[u64], positions: &[u32]) -> Result<(), Fail> {
+    let mut m = s.clone();
+    m.mask(positions.iter().copied())
+        .map_err(|e| (format!("mask:error:{}", enc_tag(s)), e.to_string()))?;
+    let keep: Vec<u64> = want
+        .iter()
+        .enumerate()
+        .filter(|(i, _)| positions.binary_search(&(*i as u32)).is_err())
+        .map(|(_, v)| *v)
+        .collect();
+    check_basic(&m, &keep, &format!("mask[{}]", enc_tag(s)))
+}
+
+fn check_delete(s: &RowIdSequence, want: &[u64], ids: &[u64]) -> Result<(), Fail> {
+    let mut m = s.clone();
+    m.delete(ids.iter().copied());
+    let del: BTreeSet<u64> = ids.iter().copied().collect();
+    let keep: Vec<u64> = want.iter().copied().filter(|v| !del.contains(v)).collect();
+    check_basic(&m, &keep, &format!("delete[{}]", enc_tag(s)))
+}
+
+fn check_select(s: &RowIdSequence, want: &[u64], offsets: &[usize]) -> Result<(), Fail> {
+    let got: Vec<u64> = s.select(offsets.iter().copied()).collect();
+    let exp: Vec<u64> = offsets.iter().filter(|o| **o < want.len()).map(|o| want[*o]).collect();
+    if got != exp {
+        return Err((format!("select:differs:{}", enc_tag(s)), format!("select({offsets:?}) = {got:?}, want {exp:?}")));
+    }
+    Ok(())
+}
+
+/// rechunk into the given sizes; `sizes` sums to the total number of ids
+fn check_rechunk_exact(seqs: &[RowIdSequence], all: &[u64], sizes: &[u64]) -> Result<(), Fail> {
+    let tag = seqs.iter().map(enc_tag).collect::<Vec<_>>().join("|");
+    let tag = if tag.len() > 60 { "many".to_string() } else { tag };
+    for allow in [false, true] {
+        let out = rechunk_sequences(seqs.to_vec(), sizes.iter().copied(), allow);
+        let out = match out {
+            Ok(o) => o,
+            Err(e) => {
+                let trailing_empty = seqs.last().is_some_and(|s| s.len() == 0)
+                    || seqs.last().is_some_and(|s| format!("{s:?}").ends_with("Range(0..0)])"));
+                return Err((
+                    format!(
+                        "rechunk:error-on-matching-sizes:{}",
+                        if trailing_empty { "input-ends-with-empty-segment" } else { "other" }
+                    ),
+                    format!("sizes {sizes:?} sum to the {} ids but rechunk_sequences failed: {e}", all.len()),
+                ));
+            }
+        };
+        if out.len() != sizes.len() {
+            return Err((format!("rechunk:chunk-count:{tag}"), format!("{} chunks for {} sizes", out.len(), sizes.len())));
+        }
+        let mut off = 0usize;
+        for (c, sz) in out.iter().zip(sizes) {
+            let w = &all[off..off + *sz as usize];
+            check_basic(c, w, &format!("rechunk[{tag}]"))?;
+            off += *sz as usize;
+        }
+    }
+    Ok(())
+}
+
+fn check_rechunk_mismatch(seqs: &[RowIdSequence], all: &[u64], sizes: &[u64]) -> Result<(), Fail> {
+    let total: u64 = sizes.iter().sum();
+    let n = all.len() as u64;
+    if total == n {
+        return Ok(());
+    }
+    // strict mode must refuse
+    if rechunk_sequences(seqs.to_vec(), sizes.iter().copied(), false).is_ok() {
+        return Err(("rechunk:accepts-mismatching-sizes".into(), format!("{n} ids, sizes {sizes:?}, allow_incomplete=false returned Ok")));
+    }
+    if total > n {
+        // incomplete allowed: chunks are the prefix partition of the ids, later chunks short/empty
+        match rechunk_sequences(seqs.to_vec(), sizes.iter().copied(), true) {
+            Ok(out) => {
+                if out.len() != sizes.len() {
+                    return Err(("rechunk-incomplete:chunk-count".into(), format!("{} chunks for {} sizes", out.len(), sizes.len())));
+                }
+                let mut off = 0usize;
+                for (c, sz) in out.iter().zip(sizes) {
+                    let end = (off + *sz as usize).min(all.len());
+                    check_basic(c, &all[off..end], "rechunk-incomplete")?;
+                    off = end;
+                }
+            }
+            Err(e) => return Err(("rechunk-incomplete:error".into(), e.to_string())),
+        }
+    }
+    Ok(())
+}
+
+/// Input classes used to narrow signatures (computed from the inputs; `want` selects which classes
+/// can matter for the operation: E = a part is empty (a `Range(0..0)` segment), B = a part encoded
+/// as RangeWithBitmap starts at an offset > 0, O = the id spans of two parts overlap).
+fn input_flags(parts: &[Vec<u64>], want: &str) -> String {
+    let mut f = vec![];
+    if want.contains('B') {
+        let mut before = 0usize;
+        let mut b = false;
+        for p in parts {
+            if before > 0 && encodings(&RowIdSequence::from(p.as_slice())) == vec!["RangeWithBitmap"] {
+                b = true;
+            }
+            before += p.len();
+        }
+        if b {
+            return "bitmap-segment-after-first".into();
+        }
+    }
+    if want.contains('E') && parts.iter().any(|p| p.is_empty()) {
+        f.push("has-empty-segment");
+    }
+    if want.contains('O') {
+        let spans: Vec<(u64, u64)> = parts.iter().filter(|p| !p.is_empty()).map(|p| (*p.iter().min().unwrap(), *p.iter().max().unwrap())).collect();
+        let mut overlap = false;
+        for i in 0..spans.len() {
+            for j in i + 1..spans.len() {
+                if spans[i].0 <= spans[j].1 && spans[j].0 <= spans[i].1 {
+                    overlap = true;
+                }
+            }
+        }
+        if overlap {
+            f.push("overlapping-segment-ranges");
+        }
+    }
+    if f.is_empty() {
+        "plain".into()
+    } else {
+        f.join("+")
+    }
+}
+
+fn high_fragment(ids: &[u64]) -> bool {
+    ids.iter().any(|v| (v >> 32) as u32 >= u32::MAX - 1)
+}
+
+/// mask_to_offset_ranges: offsets of the ids the mask selects, grouped into ranges
+fn check_mask_to_offsets(s: &RowIdSequence, parts: &[Vec<u64>], want: &[u64], selected: &BTreeSet<u64>, as_block: bool) -> Result<(), Fail> {
+    let flags = input_flags(parts, "BE");
+    let tm: RowIdTreeMap = if as_block {
+        want.iter().copied().filter(|v| !selected.contains(v)).collect()
+    } else {
+        selected.iter().copied().collect()
+    };
+    let mask = if as_block { RowIdMask::from_block(tm) } else { RowIdMask::from_allowed(tm) };
+    let got = guarded(|| s.mask_to_offset_ranges(&mask)).map_err(|p| (format!("mask_to_offset_ranges:panic:{flags}"), format!("{p} (encodings {})", enc_tag(s))))?;
+    let mut exp: Vec<std::ops::Range<u64>> = vec![];
+    for (i, v) in want.iter().enumerate() {
+        if selected.contains(v) {
+            let i = i as u64;
+            match exp.last_mut() {
+                Some(r) if r.end == i => r.end = i + 1,
+                _ => exp.push(i..i + 1),
+            }
+        }
+    }
+    // how the offsets are grouped into ranges is not promised; the offsets are
+    let flat = |r: &Vec<std::ops::Range<u64>>| r.iter().flat_map(|x| x.clone()).collect::<Vec<u64>>();
+    if flat(&got) != flat(&exp) {
+        return Err((
+            format!("mask_to_offset_ranges:offsets-differ:{flags}"),
+            format!("got {:?}, want {:?} (encodings {})", &got[..got.len().min(6)], &exp[..exp.len().min(6)], enc_tag(s)),
+        ));
+    }
+    Ok(())
+}
+
+fn check_treemap_from(s: &RowIdSequence, parts: &[Vec<u64>], want: &[u64]) -> Result<(), Fail> {
+    let flags = input_flags(parts, "EO");
+    let tm = RowIdTreeMap::from(s);
+    let got: Option<Vec<u64>> = tm.row_ids().map(|it| it.map(u64::from).collect());
+    let mut exp = want.to_vec();
+    exp.sort_unstable();
+    if got.as_ref() != Some(&exp) {
+        let g: BTreeSet<u64> = got.clone().unwrap_or_default().into_iter().collect();
+        let e: BTreeSet<u64> = exp.iter().copied().collect();
+        let class = match (g.difference(&e).next().is_some(), e.difference(&g).next().is_some()) {
+            (true, false) => "extra-ids",
+            (false, true) => "missing-ids",
+            _ => "extra-and-missing-ids",
+        };
+        return Err((
+            format!("treemap-from-sequence:{class}:{flags}"),
+            format!("{} ids vs {} (encodings {})", g.len(), e.len(), enc_tag(s)),
+        ));
+    }
+    Ok(())
+}
+
+fn check_select_row_ids(s: &RowIdSequence, want: &[u64], rng: &mut Rng) -> Result<(), Fail> {
+    let n = want.len();
+    let a = rng.usize_below(n + 1);
+    let b = a + rng.usize_below(n - a + 1);
+    let idx: Vec<u32> = (0..rng.usize_below(12)).map(|_| rng.usize_below(n.max(1)) as u32).filter(|i| (*i as usize) < n).collect();
+    let cases: Vec<(ReadBatchParams, Vec<u64>)> = vec![
+        (ReadBatchParams::Range(a..b), want[a..b].to_vec()),
+        (ReadBatchParams::RangeFull, want.to_vec()),
+        (ReadBatchParams::RangeTo(..b), want[..b].to_vec()),
+        (ReadBatchParams::RangeFrom(a..), want[a..].to_vec()),
+        (
+            ReadBatchParams::Ranges(Arc::from(vec![(a as u64)..(b as u64), 0..(a as u64)])),
+            want[a..b].iter().chain(want[..a].iter()).copied().collect(),
+        ),
+        (
+            ReadBatchParams::Indices(arrow_array::UInt32Array::from(idx.clone())),
+            idx.iter().map(|i| want[*i as usize]).collect(),
+        ),
+    ];
+    for (p, exp) in cases {
+        let got = select_row_ids(s, &p).map_err(|e| (format!("select_row_ids:error:{}", enc_tag(s)), format!("{p}: {e}")))?;
+        if got != exp {
+            return Err((format!("select_row_ids:differs:{}", enc_tag(s)), format!("{p} on {} ids", n)));
+        }
+    }
+    Ok(())
+}
+
+// ------------------------------------------------------------------------------------------
+// exhaustive: all duplicate-free lists over a 6-value universe up to length 5, every split into
+// two `extend`ed parts, every slice, every position mask, every id subset delete, every sorted
+// offset selection, every composition into chunk sizes
+
+fn universe(seed: u64, k: u64) -> [u64; 6] {
+    let mut rng = Rng::for_case(seed, 0x34_0000 + k);
+    let base = match k % 4 {
+        0 => rng.below(100),
+        1 => (1u64 << 32) - 3,
+        2 => u64::MAX - 1 - 1200,
+        _ => rng.next_u64() >> 1,
+    };
+    // gap patterns exercise Range / holes / bitmap / sorted array choices
+    let gaps: [u64; 5] = match (k / 4) % 4 {
+        0 => [1, 1, 1, 1, 1],
+        1 => [1, 2, 1, 3, 1],
+        2 => [1, 1, 40, 1, 200],
+        _ => [1, 70_000, 1, 1, 1000],
+    };
+    let mut u = [base; 6];
+    for i in 1..6 {
+        u[i] = u[i - 1] + gaps[i - 1];
+    }
+    u
+}
+
+fn permutations_up_to(u: &[u64; 6], max_len: usize) -> Vec<Vec<u64>> {
+    let mut out = vec![vec![]];
+    let mut frontier: Vec<Vec<u64>> = vec![vec![]];
+    for _ in 0..max_len {
+        let mut next = vec![];
+        for l in &frontier {
+            for v in u {
+                if !l.contains(v) {
+                    let mut n = l.clone();
+                    n.push(*v);
+                    next.push(n);
+                }
+            }
+        }
+        out.extend(next.iter().cloned());
+        frontier = next;
+    }
+    out
+}
+
+fn compositions(n: usize) -> Vec<Vec<u64>> {
+    // all ordered ways to write n as a sum of positive parts, plus variants with a zero-size chunk
+    if n == 0 {
+        return vec![vec![], vec![0]];
+    }
+    let mut out = vec![];
+    for bits in 0..(1u32 << (n - 1)) {
+        let mut parts = vec![];
+        let mut cur = 1u64;
+        for i in 0..n - 1 {
+            if bits & (1 << i) != 0 {
+                parts.push(cur);
+                cur = 1;
+            } else {
+                cur += 1;
+            }
+        }
+        parts.push(cur);
+        out.push(parts);
+    }
+    let mut z = out[0].clone();
+    z.insert(0, 0);
+    out.push(z);
+    out
+}
+
+struct Stats {
+    ops: AtomicU64,
+    enc: [AtomicU64; 5],
+}
+
+fn note_enc(st: &Stats, s: &RowIdSequence) {
+    for e in encodings(s) {
+        if let Some(i) = VARIANTS.iter().position(|v| *v == e) {
+            st.enc[i].fetch_add(1, Ordering::Relaxed);
+        }
+    }
+}
+
+fn exhaustive_list(sink: &Sink, st: &Stats, seed: u64, uni: &[u64; 6], list: &[u64]) -> bool {
+    let n = list.len();
+    let mut ok = true;
+    let mut fail = |f: Fail, ctx: Value| {
+        ok = false;
+        sink.violation_lazy(&f.0, &f.1, || json!({"seed": seed as i64, "part": "exhaustive", "universe": uni, "list": list, "context": ctx, "detail": f.1}));
+    };
+    for split in 0..=n {
+        if split == 0 && n > 0 {
+            continue; // identical to split == n apart from a leading empty part (covered by split==n of others)
+        }
+        let parts = if split == n { vec![list.to_vec()] } else { vec![list[..split].to_vec(), list[split..].to_vec()] };
+        let s = build(&parts);
+        note_enc(st, &s);
+        let ctx = json!({"parts": parts});
+        let mut ops = 0u64;
+        if let Err(f) = check_basic(&s, list, "from_slice") {
+            fail(f, ctx.clone());
+            continue;
+        }
+        if let Err(f) = check_serde(&s, list) {
+            fail(f, ctx.clone());
+        }
+        if s.is_empty() != (n == 0) && split == n {
+            fail(("is_empty-disagrees-with-len".into(), format!("is_empty() = {} for a sequence of {} ids", s.is_empty(), n)), ctx.clone());
+        }
+        for off in 0..=n {
+            for len in 0..=(n - off) {
+                ops += 1;
+                if let Err(f) = guarded(|| check_slice(&s, list, off, len)).unwrap_or_else(|p| Err(("slice:panic".into(), p))) {
+                    fail(f, json!({"parts": parts, "slice": [off, len]}));
+                }
+            }
+        }
+        for bits in 0..(1u32 << n) {
+            let pos: Vec<u32> = (0..n as u32).filter(|i| bits & (1 << i) != 0).collect();
+            ops += 3;
+            if let Err(f) = guarded(|| check_mask(&s, list, &pos)).unwrap_or_else(|p| Err((format!("mask:panic:{}", enc_tag(&s)), p))) {
+                fail(f, json!({"parts": parts, "mask_positions": pos}));
+            }
+            // delete the same subset by id, in reverse order of appearance, plus two absent ids
+            let mut ids: Vec<u64> = pos.iter().rev().map(|p| list[*p as usize]).collect();
+            ids.push(uni[5] + 12345);
+            if let Some(absent) = uni.iter().find(|v| !list.contains(v)) {
+                ids.insert(0, *absent);
+            }
+            if let Err(f) = guarded(|| check_delete(&s, list, &ids)).unwrap_or_else(|p| Err((format!("delete:panic:{}", enc_tag(&s)), p))) {
+                fail(f, json!({"parts": parts, "delete_ids": ids}));
+            }
+            // select the subset (sorted offsets) plus an out-of-bounds offset
+            let mut offs: Vec<usize> = pos.iter().map(|p| *p as usize).collect();
+            offs.push(n + 1);
+            if let Err(f) = guarded(|| check_select(&s, list, &offs)).unwrap_or_else(|p| Err((format!("select:panic:{}", enc_tag(&s)), p))) {
+                fail(f, json!({"parts": parts, "select": offs}));
+            }
+        }
+        for sizes in compositions(n) {
+            ops += 1;
+            let seqs: Vec<RowIdSequence> = parts.iter().map(|p| RowIdSequence::from(p.as_slice())).collect();
+            if let Err(f) = guarded(|| check_rechunk_exact(&seqs, list, &sizes)).unwrap_or_else(|p| Err(("rechunk:panic".into(), p))) {
+                fail(f, json!({"parts": parts, "chunk_sizes": sizes}));
+            }
+        }
+        if !high_fragment(list) && n > 0 {
+            for bits in [0u32, 1, (1 << n) - 1, 0b10101 & ((1 << n) - 1), 0b01010 & ((1 << n) - 1)] {
+                let sel: BTreeSet<u64> = (0..n).filter(|i| bits & (1 << i) != 0).map(|i| list[i]).collect();
+                for as_block in [false, true] {
+                    ops += 1;
+                    if let Err(f) = check_mask_to_offsets(&s, &parts, list, &sel, as_block) {
+                        fail(f, json!({"parts": parts, "selected_ids": sel, "mask_is_block_list": as_block}));
+                    }
+                }
+            }
+            if let Err(f) = guarded(|| check_treemap_from(&s, &parts, list)).unwrap_or_else(|p| Err(("treemap-from-sequence:panic".into(), p))) {
+                fail(f, ctx.clone());
+            }
+        }
+        st.ops.fetch_add(ops, Ordering::Relaxed);
+    }
+    ok
+}
+
+// ------------------------------------------------------------------------------------------
+// random large lists
+
+fn gen_part(rng: &mut Rng, base: u64, used: &mut BTreeSet<u64>) -> Vec<u64> {
+    let n = match rng.below(6) {
+        0 => 0,
+        1 => rng.urange(1, 4),
+        2 | 3 => rng.urange(5, 200),
+        _ => rng.urange(200, 2500),
+    };
+    let kind = rng.below(7);
+    let mut v: Vec<u64> = Vec::with_capacity(n);
+    let start = base.saturating_add(rng.below(5000));
+    match kind {
+        0 => v.extend((0..n as u64).map(|i| start.saturating_add(i))), // dense
+        1 => {
+            // few holes
+            let holes = rng.urange(1, 4);
+            let mut x = start;
+            for i in 0..n {
+                if i > 0 && rng.usize_below(n.max(1)) < holes {
+                    x = x.saturating_add(1 + rng.below(3));
+                }
+                v.push(x);
+                x = x.saturating_add(1);
+            }
+        }
+        2 => {
+            // many holes (bitmap territory)
+            let mut x = start;
+            for _ in 0..n {
+                v.push(x);
+                x = x.saturating_add(1 + rng.below(4));
+            }
+        }
+        3 => {
+            // sparse sorted
+            let mut x = start;
+            for _ in 0..n {
+                v.push(x);
+                x = x.saturating_add(1 + rng.below(100_000));
+            }
+        }
+        4 => {
+            // unsorted dense
+            v.extend((0..n as u64).map(|i| start.saturating_add(i)));
+            rng.shuffle(&mut v);
+        }
+        5 => {
+            // unsorted sparse, wide spread
+            for _ in 0..n {
+                v.push(start.saturating_add(rng.below(1 << 40)));
+            }
+        }
+        _ => {
+            // descending
+            v.extend((0..n as u64).map(|i| start.saturating_add(i)));
+            v.reverse();
+        }
+    }
+    // ids are unique within a table; never u64::MAX here (separate class)
+    v.retain(|x| *x < u64::MAX && used.insert(*x));
+    v
+}
+
+fn random_case(report: &Report, sink: &Sink, st: &Stats, i: u64) {
+    let mut rng = Rng::for_case(report.seed, i);
+    let base = match rng.below(6) {
+        0 => 0,
+        1 => (1u64 << 32) - rng.below(3000),
+        2 => u64::MAX - 1 - rng.below(20_000),
+        3 => (u32::MAX as u64) << 32,
+        _ => rng.next_u64() >> rng.below(40),
+    };
+    let mut used = BTreeSet::new();
+    let nparts = rng.urange(1, 5);
+    let parts: Vec<Vec<u64>> = (0..nparts).map(|_| gen_part(&mut rng, base, &mut used)).collect();
+    let all = flat(&parts);
+    let s = build(&parts);
+    note_enc(st, &s);
+    let n = all.len();
+    let mut fails: Vec<(Fail, Value)> = vec![];
+    let mut ops = 0u64;
+    let mut run = |what: &str, ctx: Value, r: Result<Result<(), Fail>, String>| {
+        ops += 1;
+        match r {
+            Ok(Ok(())) => {}
+            Ok(Err(f)) => fails.push((f, ctx)),
+            Err(p) => fails.push(((format!("{what}:panic:{}", enc_tag(&s)), p), ctx)),
+        }
+    };
+    run("from_slice", json!({}), guarded(|| check_basic(&s, &all, "from_slice")));
+    run("serde", json!({}), guarded(|| check_serde(&s, &all)));
+    for _ in 0..6 {
+        let off = rng.usize_below(n + 1);
+        let len = match rng.below(3) {
+            0 => n - off,
+            _ => rng.usize_below(n - off + 1),
+        };
+        run("slice", json!({"slice": [off, len]}), guarded(|| check_slice(&s, &all, off, len)));
+    }
+    for _ in 0..4 {
+        let dens = *rng.pick(&[1u64, 10, 50, 90, 100]);
+        let mut pos: Vec<u32> = (0..n as u32).filter(|_| rng.below(100) < dens).collect();
+        if rng.chance(1, 4) && n > 0 {
+            // contiguous block (a deleted run)
+            let a = rng.usize_below(n);
+            let b = a + rng.usize_below(n - a + 1);
+            pos = (a as u32..b as u32).collect();
+        }
+        let mut ids: Vec<u64> = pos.iter().map(|p| all[*p as usize]).collect();
+        if rng.bool() {
+            rng.shuffle(&mut ids);
+        }
+        ids.push(base.wrapping_add(777_777_777));
+        let offs: Vec<usize> = pos.iter().map(|p| *p as usize).chain([n, n + 5]).collect();
+        let small = |v: &Vec<u32>| json!({"count": v.len(), "first": v.iter().take(8).collect::<Vec<_>>()});
+        run("mask", json!({"mask": small(&pos)}), guarded(|| check_mask(&s, &all, &pos)));
+        run("delete", json!({"delete_positions": small(&pos)}), guarded(|| check_delete(&s, &all, &ids)));
+        run("select", json!({"select": small(&pos)}), guarded(|| check_select(&s, &all, &offs)));
+        if !high_fragment(&all) {
+            let sel: BTreeSet<u64> = pos.iter().map(|p| all[*p as usize]).collect();
+            let blk = rng.bool();
+            run("mask_to_offset_ranges", json!({"selected": small(&pos), "block": blk}), guarded(|| check_mask_to_offsets(&s, &parts, &all, &sel, blk)));
+        }
+    }
+    run("select_row_ids", json!({}), guarded(|| check_select_row_ids(&s, &all, &mut rng)));
+    if !high_fragment(&all) && n < 20_000 {
+        run("treemap-from-sequence", json!({}), guarded(|| check_treemap_from(&s, &parts, &all)));
+    }
+    // rechunk: random composition; sequences = the parts; also after deleting (empty segments)
+    {
+        let seqs: Vec<RowIdSequence> = parts.iter().map(|p| RowIdSequence::from(p.as_slice())).collect();
+        let mut sizes = vec![];
+        let mut left = n as u64;
+        while left > 0 {
+            let cap = 1 + rng.below(900);
+            let c = 1 + rng.below(left.min(cap));
+            sizes.push(c);
+            left -= c;
+        }
+        if rng.chance(1, 3) {
+            let at = rng.usize_below(sizes.len() + 1);
+            sizes.insert(at, 0);
+        }
+        run("rechunk", json!({"chunk_sizes": sizes.len()}), guarded(|| check_rechunk_exact(&seqs, &all, &sizes)));
+        let mut wrong = sizes.clone();
+        if rng.bool() {
+            wrong.push(1 + rng.below(5));
+        } else if !wrong.is_empty() {
+            let k = rng.usize_below(wrong.len());
+            if wrong[k] > 0 {
+                wrong[k] -= 1;
+            } else {
+                wrong[k] += 1;
+            }
+        }
+        run("rechunk-mismatch", json!({"chunk_sizes": wrong.len()}), guarded(|| check_rechunk_mismatch(&seqs, &all, &wrong)));
+    }
+    let nt = n >= 2;
+    report.case(nt.then(|| hash_of(&("c34", enc_tag(&s), n, all.first(), all.last(), all.get(n / 2)))));
+    st.ops.fetch_add(ops, Ordering::Relaxed);
+    report.count("ids_compared", n as u64 * ops);
+    if i % 501 == 7 && report.want_sample() {
+        report.sample(json!({"part": "random-sequence", "case": i, "ids": n, "parts": parts.iter().map(|p| p.len()).collect::<Vec<_>>(), "encodings": encodings(&s)}));
+    }
+    for ((sig, what), ctx) in fails {
+        sink.violation_lazy(&sig, &what, || {
+            json!({"seed": report.seed as i64, "part": "random-sequence", "case": i, "context": ctx, "detail": what,
+                "parts_first_ids": parts.iter().map(|p| p.iter().take(12).collect::<Vec<_>>()).collect::<Vec<_>>(),
+                "part_lengths": parts.iter().map(|p| p.len()).collect::<Vec<_>>(), "encodings": encodings(&s),
+                "replay": format!("e_sets C34 --seed {} --case {i}", report.seed as i64)})
+        });
+    }
+}
+
+// ------------------------------------------------------------------------------------------
+// row id index
+
+fn index_case(report: &Report, sink: &Sink, i: u64) {
+    let mut rng = Rng::for_case(report.seed, i);
+    let nfrag = rng.urange(1, 6);
+    let base = match rng.below(4) {
+        0 => 0,
+        1 => (1u64 << 32) - 500,
+        2 => u64::MAX - 1 - 40_000,
+        _ => rng.next_u64() >> 8,
+    };
+    let mut used = BTreeSet::new();
+    let mut model: BTreeMap<u64, u64> = BTreeMap::new();
+    let mut dead: BTreeSet<u64> = BTreeSet::new();
+    let mut frags = vec![];
+    let mut desc = vec![];
+    let mut fid = rng.below(5) as u32;
+    for _ in 0..nfrag {
+        let nparts = rng.urange(1, 3);
+        let mut parts: Vec<Vec<u64>> = (0..nparts).map(|_| gen_part(&mut rng, base, &mut used)).collect();
+        // a row moved by an update: its id also sits at a deleted position of an older fragment
+        let mut ghost: Vec<(usize, u64)> = vec![];
+        if !model.is_empty() && rng.bool() {
+            let k = rng.urange(1, 5);
+            let live: Vec<u64> = model.keys().copied().collect();
+            for _ in 0..k {
+                let g = *rng.pick(&live);
+                if !ghost.iter().any(|(_, x)| *x == g) {
+                    ghost.push((0, g));
+                }
+            }
+            for (_, g) in &ghost {
+                parts[0].push(*g);
+            }
+        }
+        let all = flat(&parts);
+        let n = all.len();
+        let ghost_ids: BTreeSet<u64> = ghost.iter().map(|(_, g)| *g).collect();
+        let dens = *rng.pick(&[0u64, 0, 5, 50, 100]);
+        let mut del: Vec<u32> = vec![];
+        for (pos, id) in all.iter().enumerate() {
+            let d = ghost_ids.contains(id) || rng.below(100) < dens;
+            if d {
+                del.push(pos as u32);
+                if !ghost_ids.contains(id) {
+                    dead.insert(*id);
+                }
+            } else {
+                model.insert(*id, ((fid as u64) << 32) | pos as u64);
+            }
+        }
+        let dv = match rng.below(3) {
+            0 if del.is_empty() => DeletionVector::NoDeletions,
+            1 => DeletionVector::Bitmap(roaring::RoaringBitmap::from_iter(del.iter().copied())),
+            _ => DeletionVector::Set(del.iter().copied().collect()),
+        };
+        let seq = build(&parts);
+        desc.push(json!({"fragment": fid, "rows": n, "deleted": del.len(), "encodings": encodings(&seq), "moved_in_ids": ghost.len()}));
+        frags.push(FragmentRowIdIndex { fragment_id: fid, row_id_sequence: Arc::new(seq), deletion_vector: Arc::new(dv) });
+        fid += 1 + rng.below(3) as u32;
+    }
+    if rng.bool() {
+        rng.shuffle(&mut frags);
+    }
+    let idx = match guarded(|| RowIdIndex::new(&frags)) {
+        Ok(Ok(x)) => x,
+        Ok(Err(e)) => {
+            report.case(None);
+            sink.violation_lazy("rowid-index:new-error", &e.to_string(), || json!({"seed": report.seed as i64, "case": i, "fragments": desc}));
+            return;
+        }
+        Err(p) => {
+            report.case(None);
+            sink.violation_lazy("rowid-index:new-panic", &p, || json!({"seed": report.seed as i64, "case": i, "fragments": desc}));
+            return;
+        }
+    };
+    let mut checked = 0u64;
+    let mut bad: Option<(String, String)> = None;
+    for (id, addr) in &model {
+        checked += 1;
+        let got = idx.get(*id).map(u64::from);
+        if got != Some(*addr) {
+            bad = Some((
+                if got.is_none() { "rowid-index:present-id-not-found".into() } else { "rowid-index:wrong-address".into() },
+                format!("get({id}) = {:?}, model {:?}", got.map(RowAddress::from), RowAddress::from(*addr)),
+            ));
+            break;
+        }
+    }
+    if bad.is_none() {
+        let mut absent: Vec<u64> = dead.iter().copied().filter(|d| !model.contains_key(d)).collect();
+        for (id, _) in model.iter().take(200) {
+            for c in [id.wrapping_add(1), id.wrapping_sub(1)] {
+                if !model.contains_key(&c) {
+                    absent.push(c);
+                }
+            }
+        }
+        absent.push(0);
+        absent.push(u64::MAX);
+        absent.retain(|a| !model.contains_key(a));
+        for a in absent {
+            checked += 1;
+            if let Some(g) = idx.get(a) {
+                bad = Some((
+                    if dead.contains(&a) { "rowid-index:deleted-id-resolves".into() } else { "rowid-index:absent-id-resolves".into() },
+                    format!("get({a}) = {g:?} but the id is not a live row"),
+                ));
+                break;
+            }
+        }
+    }
+    report.count("index_lookups_compared", checked);
+    let nt = model.len() >= 2 && nfrag >= 1;
+    report.case(nt.then(|| hash_of(&("idx", model.len(), dead.len(), nfrag, model.iter().next(), model.iter().next_back()))));
+    if i % 503 == 11 && report.want_sample() {
+        report.sample(json!({"part": "rowid-index", "case": i, "fragments": desc, "live_ids": model.len()}));
+    }
+    if let Some((sig, what)) = bad {
+        sink.violation_lazy(&sig, &what, || {
+            json!({"seed": report.seed as i64, "part": "rowid-index", "case": i, "fragments": desc, "detail": what,
+                "replay": format!("e_sets C34 --seed {} --case {i}", report.seed as i64)})
+        });
+    }
+}
+
+// ------------------------------------------------------------------------------------------
+
+fn new_stats() -> Stats {
+    Stats { ops: AtomicU64::new(0), enc: Default::default() }
+}
+
+fn run_exhaustive(report: &Report, sink: &Sink, st: &Stats, n_universes: u64) -> bool {
+    let mut jobs: Vec<(u64, [u64; 6], Vec<u64>)> = vec![];
+    for k in 0..n_universes {
+        let u = universe(report.seed, k);
+        for l in permutations_up_to(&u, 5) {
+            jobs.push((k, u, l));
+        }
+    }
+    let done = fan_out(n_threads(), 0, jobs.len() as u64, &|| report.time_left(), &|j| {
+        let (k, u, l) = &jobs[j as usize];
+        exhaustive_list(sink, st, report.seed, u, l);
+        report.case((l.len() >= 2).then(|| hash_of(&("ex", k, l))));
+    });
+    done == jobs.len() as u64
+}
+
+fn selftest(args: &Args) -> i32 {
+    quiet_panics();
+    let mut a = args.clone();
+    a.prop = "C34-selftest".into();
+    std::env::set_var("VERIF_EVIDENCE_OUT", "/dev/null");
+    let report = Report::new(&a, "exploration", "selftest", (60, 60));
+    let st = new_stats();
+    let sink = Sink::collecting();
+    CORRUPT_ITER.store(true, Ordering::Relaxed);
+    run_exhaustive(&report, &sink, &st, 1);
+    CORRUPT_ITER.store(false, Ordering::Relaxed);
+    let caught = sink.has_prefix("from_slice:iter-differs");
+    println!("SELFTEST corrupted-iter caught={caught} signatures={}", sink.n_signatures());
+    // model corrupted: the index must be flagged when the model expects a different address
+    let ok2 = {
+        let seq = RowIdSequence::from(&[5u64, 6, 9][..]);
+        let idx = RowIdIndex::new(&[FragmentRowIdIndex { fragment_id: 3, row_id_sequence: Arc::new(seq), deletion_vector: Arc::new(DeletionVector::NoDeletions) }]).unwrap();
+        idx.get(9).map(u64::from) == Some((3u64 << 32) | 2) && idx.get(7).is_none()
+    };
+    println!("SELFTEST index sanity={ok2}");
+    if caught && ok2 {
+        println!("SELFTEST C34 ok");
+        0
+    } else {
+        println!("SELFTEST C34 FAILED");
+        2
+    }
+}
+
+pub fn run(args: &Args) -> i32 {
+    if is_selftest(args) {
+        return selftest(args);
+    }
+    quiet_panics();
+    arm_watchdog(args.tier.pick(300, 1500));
+    let rule = "Enumerated completely (per universe): every duplicate-free list of length <=5 over a 6-value universe (1237 lists), built as one segment and as every two-part `extend`; for each: iter/len/get/rev/serde, every slice, every position mask, every id-subset delete, every sorted offset selection, every composition into chunk sizes (rechunk_sequences), mask_to_offset_ranges and the RowIdTreeMap conversion. Universes vary base (0, 2^32 boundary, near u64::MAX, random) and gap pattern so that all five segment encodings are chosen. Plus seeded random lists (<=5 parts of <=2500 ids: dense, few/many holes, sparse, shuffled, descending, wide) and random fragment layouts with deletion vectors and moved rows for RowIdIndex. Non-trivial: a list with >=2 ids / an index with >=2 live ids.";
+    let report = Report::new(args, "exploration", rule, (45, 600)).with_min_nontrivial(500);
+    let sink = Sink::to_report(&report);
+    let st = new_stats();
+    if let Some(c) = args.extra.get("case").and_then(|c| c.parse::<u64>().ok()) {
+        if c % 3 == 0 {
+            index_case(&report, &sink, c);
+        } else {
+            random_case(&report, &sink, &st, c);
+        }
+        sink.flush();
+        return report.finish();
+    }
+    let n_uni = args.tier.pick(8, 16);
+    let complete = run_exhaustive(&report, &sink, &st, n_uni);
+    report.exhaustive(complete);
+    report.set("exhaustive_universes", json!(n_uni));
+    report.set("t_after_exhaustive_s", json!((report.elapsed_s() * 10.0).round() / 10.0));
+    if !complete {
+        report.inconclusive("exhaustive list enumeration did not finish within the budget");
+    }
+    let max_cases = args.tier.pick(200_000u64, 20_000_000);
+    fan_out(n_threads(), 1, max_cases, &|| report.time_left(), &|i| {
+        if i % 3 == 0 {
+            index_case(&report, &sink, i);
+        } else {
+            random_case(&report, &sink, &st, i);
+        }
+    });
+    report.count("sequence_operations_checked", st.ops.load(Ordering::Relaxed));
+    report.set(
+        "segment_encodings_exercised",
+        json!(VARIANTS.iter().enumerate().map(|(i, v)| (v.to_string(), json!(st.enc[i].load(Ordering::Relaxed)))).collect::<serde_json::Map<_, _>>()),
+    );
+    for (i, v) in VARIANTS.iter().enumerate() {
+        if st.enc[i].load(Ordering::Relaxed) == 0 {
+            report.harness_error(&format!("segment encoding {v} was never chosen by the generated lists"));
+        }
+    }
+    report.assume("row ids within one sequence / table are unique (documented invariant of RowIdSequence); lists never contain duplicates or u64::MAX");
+    report.assume("mask positions are sorted and in bounds; slices are in bounds; select offsets are sorted (documented preconditions)");
+    report.assume("mask_to_offset_ranges / RowIdTreeMap conversion are skipped for ids in fragments >= u32::MAX-1 (known C21 insert_range non-termination)");
+    sink.flush();
+    report.finish()
 }
